@@ -4,10 +4,12 @@ package main
 // fills explicitly (CacheSync actions) and with the registered event handlers captured.
 
 import (
+	"flag"
 	"fmt"
 	"io"
 	"reflect"
 	"sort"
+	"sync"
 
 	kubeapps "k8s.io/api/apps/v1"
 	v1 "k8s.io/api/core/v1"
@@ -64,9 +66,17 @@ type Env struct {
 	pvcIdx cache.Indexer
 }
 
+var klogOnce sync.Once
+
 func silenceKlog() {
-	klog.SetOutput(io.Discard)
-	klog.LogToStderr(false)
+	klogOnce.Do(func() {
+		fs := flag.NewFlagSet("klog", flag.ContinueOnError)
+		klog.InitFlags(fs)
+		fs.Set("logtostderr", "false")
+		fs.Set("alsologtostderr", "false")
+		fs.Set("stderrthreshold", "FATAL")
+		klog.SetOutput(io.Discard)
+	})
 }
 
 func NewEnv() *Env {
